@@ -13,7 +13,10 @@ type myBytes []byte
 
 // inp is one input in its two forms plus a private snapshot that is never
 // handed to golib. Both forms are heap-backed copies, so an (illegal) write by
-// golib is observable instead of faulting on read-only data.
+// golib is observable instead of faulting on read-only data. Half of the []byte
+// forms have spare capacity behind them (buf[:n] of a bigger buffer, filled with
+// other bytes), as most slices in a real program have: a routine must answer
+// for the len bytes it was given.
 type inp struct {
 	s    string
 	b    []byte
@@ -23,7 +26,17 @@ type inp struct {
 func mkInp(content []byte) *inp {
 	in := &inp{}
 	in.snap = append(make([]byte, 0, len(content)), content...)
-	in.b = append(make([]byte, 0, len(content)), content...)
+	spare := 0
+	switch len(content) % 4 {
+	case 1:
+		spare = 5
+	case 3:
+		spare = 64
+	}
+	in.b = append(make([]byte, 0, len(content)+spare), content...)
+	for i, room := 0, in.b[len(in.b):cap(in.b)]; i < len(room); i++ {
+		room[i] = 0xEE ^ byte(i)
+	}
 	in.s = string(content)
 	if content == nil {
 		// keep nil-ness now and then: nil slices are legal inputs
